@@ -173,9 +173,21 @@ def classify(els):
 			if base64.b64encode(vt.encode('utf-8')).endswith(b'=='):
 				fid = fid or 'F16'
 		for k, val in ps:
-			if kind in ('cookie', 'setcookie') and any(c in val for c in u';,"\\'):
-				return 'F33'
-			if u'"' in val or u'\\\\' in val:
+			try:
+				val.encode('ascii')
+				is_ascii = True
+			except UnicodeEncodeError:
+				is_ascii = False       # travels as an RFC 5987 extended parameter: every delimiter is percent-encoded
+			if not is_ascii:
+				if any(ord(c) < 0x10 for c in val):
+					fid = fid or 'F1c'
+				continue
+			if kind in ('cookie', 'setcookie'):
+				# cookie attributes are never quoted: ';', ',' (the list separator) and '"' cannot be carried;
+				# backslashes and everything else travel verbatim
+				if u';' in val or u'"' in val or u',' in val:
+					return 'F33'
+			elif u'"' in val or u'\\\\' in val:
 				return 'F20'
 			try:
 				val.encode('ascii')
